@@ -1,3 +1,9 @@
+// STATUS: REPAIRED in /repo by the commit "fix: date histogram interval parsing multiplied the number by its unit without overflow check"
+// (`number.checked_mul(unit_in_ms).ok_or_else(|| DateHistogramParseError::OutOfBounds(..))?` in front of the existing `checked_mul(1_000_000)`).
+// On the repaired tree this demo PASSES (run by main: 3/3 ok); the text and the recorded runs below describe the tree BEFORE the repair.
+// Regression guards: Kani unit date_histogram_parse (total contract; harnesses dhp_mul_overflow_quick / dhp_wrap_class_quick / dhp_mul_wrap_witness),
+// mutant specs/mutants/date_histogram_parse/fix_reverted_unchecked_mul.patch.
+//
 // Candidate finding F-datehist-interval-overflow (C14, Kani unit date_histogram_parse):
 // "For any aggregation request (... histogram and date histogram ...), the result ... equals the result computed directly from
 // those documents' field values", quantifier "every request tree ... with generated parameters (interval, offset, ...)".
